@@ -10,6 +10,16 @@ type conversion func(cty.Value, cty.Path) (cty.Value, error)
 
 func getConversion(in cty.Type, out cty.Type, unsafe bool) conversion {
 	conv := getConversionKnown(in, out, unsafe)
+	if conv == nil && unsafe {
+		// Whatever is available as a safe conversion is available in unsafe
+		// mode too. The unsafe lookup alone does not guarantee that: when a
+		// structural type is converted to a collection of a placeholder
+		// element type, unification in unsafe mode assumes that a placeholder
+		// member converts to the type of its siblings and can then end up
+		// with no common type at all, where safe mode settles for the
+		// placeholder.
+		conv = getConversionKnown(in, out, false)
+	}
 	if conv == nil {
 		return nil
 	}
